@@ -299,6 +299,36 @@ func c16Canon(cc canonCombo, base, input string) *fw.Finding {
 
 // ---- clause: conservative extensions ---------------------------------------------------------------
 
+// c16SetterNeutral: a setter value is an input too. On a URL parsed by a parser with ONE relaxing option, a
+// setter call whose value (like the URL itself) does not contain the option's trigger must give what the
+// default parser's URL gives.
+func c16SetterNeutral(opt, start, kind, value string) (*fw.Finding, bool) {
+	if triggers[opt](start) || triggers[opt](value) {
+		return nil, false
+	}
+	if opt == "LaxHostParsing" && (kind == "host" || kind == "hostname") {
+		return nil, false
+	}
+	var a, b impl.Full
+	ok := false
+	if pan := safely(func() {
+		ud, e1 := c16Default.Parse(start)
+		uo, e2 := parserFor([]string{opt}).Parse(start)
+		if e1 != nil || e2 != nil || impl.ObserveFull(ud) != impl.ObserveFull(uo) {
+			return // the parse clause's business
+		}
+		applyImplSetter(ud, kind, value)
+		applyImplSetter(uo, kind, value)
+		a, b, ok = impl.ObserveFull(ud), impl.ObserveFull(uo), true
+	}); pan != "" {
+		return fw.F("panic", value, "[%s] Parse(%q).%s(%q) panicked: %s", opt, start, kind, value, pan), true
+	}
+	if ok && a != b {
+		return fw.F("c16:not-neutral-setter:"+opt, value, "[%s] Parse(%q) . %s(%q) gives %q, the default parser's URL gives %q; neither the URL nor the value contains the option's trigger", opt, start, kind, value, b.Href, a.Href), true
+	}
+	return nil, ok
+}
+
 var hostErrorTypes = map[string]bool{}
 
 func c16Neutral(opts []string, base, input string) (*fw.Finding, bool) {
@@ -479,6 +509,10 @@ func init() {
 	fw.RegisterEvaluator("c16-canon", func(cs *fw.Case) *fw.Finding {
 		cc := canonCombo{cs.N[0] == 1, cs.N[1] == 1, cs.N[2] == 1, cs.N[3], string(cs.S[2]), strsOf(cs.S[3:])}
 		return c16Canon(cc, string(cs.S[0]), string(cs.S[1]))
+	})
+	fw.RegisterEvaluator("c16-setter-neutral", func(cs *fw.Case) *fw.Finding {
+		f, _ := c16SetterNeutral(string(cs.S[0]), string(cs.S[1]), string(cs.S[2]), string(cs.S[3]))
+		return f
 	})
 	fw.RegisterEvaluator("c16-neutral", func(cs *fw.Case) *fw.Finding {
 		f, _ := c16Neutral(cs.Cfg, string(cs.S[0]), string(cs.S[1]))
@@ -725,6 +759,35 @@ func c16Body(c *fw.Ctx) {
 					c.Nontrivial()
 				}
 			})
+		}
+	}
+	// (5b) setter values as inputs
+	c.Space("neutral-setter-values")
+	srcToks, _ := sourceLiterals()
+	for _, opt := range neutralOpts {
+		for _, st := range StartURLs {
+			if strings.Contains(st, "\x1e") || !c.Mine() {
+				continue
+			}
+			for _, kind := range setterOrder {
+				vals := append([]string{}, SetterValues[kind]...)
+				if kind == "username" || kind == "pathname" || kind == "search" {
+					vals = append(vals, "é%41", "%41é%zz", "é%4", "\U00010000%41%", "a|b", "a//b", "a\\\\b")
+					vals = append(vals, srcToks...)
+				}
+				for _, v := range vals {
+					o, s0, k0, v0 := opt, st, kind, v
+					mk := func() *fw.Case { return &fw.Case{Kind: "c16-setter-neutral", S: fw.Strs(o, s0, k0, v0)} }
+					c.CurCase(mk)
+					c.Eval()
+					f, ok := c16SetterNeutral(opt, st, kind, v)
+					if f != nil {
+						c.Report(f, mk)
+					} else if ok {
+						c.Nontrivial()
+					}
+				}
+			}
 		}
 	}
 	// (6)
